@@ -1,7 +1,7 @@
 (* C07/Property.v — the property theorems and nothing else. *)
-From Coq Require Import List Arith Reals.
+From Coq Require Import List Arith Reals ZArith.
 Import ListNotations.
-From SM Require Import Base.Num C07.Model C07.Proofs.
+From SM Require Import Base.Num C07.Model C07.Proofs Gen.C07_code C07.Translated.
 
 (* For every parameter count of P and S, with or without volfraction in P,
    with or without beta mode, R_eff mode and magnetic block: the index
@@ -37,3 +37,16 @@ Theorem C07_volfraction_owner : forall scale bg volfrac beta F Fsq S shell, shel
   (scale / shell * (if beta then Fsq + F * F * (S - 1) else Fsq * S) + bg)%R.
 Proof. exact combine_owner. Qed.
 Print Assumptions C07_volfraction_owner.
+
+(* ---- the index arithmetic as it is WRITTEN in product.py ----
+   Gen/C07_code.v is regenerated on every run from the text of ProductKernel.__init__ (Python-ast translation of
+   its integer assignments, Python integers = Z); for every parameter count, flag combination and number of
+   magnetic SLDs it yields the model's layout - which C07_layout_slices shows to pick the documented pieces - and
+   the documented slices of the lengths/offsets table. *)
+Theorem C07_code_layout : translated = true ->
+  forall (p_npars s_npars nmag : nat) (volfrac_in_p have_beta have_er : bool), (2 <= s_npars)%nat ->
+  code_layout (Z.of_nat p_npars) (Z.of_nat s_npars) volfrac_in_p have_beta have_er (Z.of_nat nmag) =
+  (layoutZ (layout p_npars s_npars volfrac_in_p have_beta have_er nmag)
+   ++ [0; Z.of_nat p_npars; Z.of_nat p_npars; Z.of_nat (p_npars + s_npars - b2n volfrac_in_p)%nat; Z.of_nat (2 + s_npars)%nat])%Z.
+Proof. exact code_layout_is_model. Qed.
+Print Assumptions C07_code_layout.
